@@ -216,6 +216,28 @@ PROPS = {
         require=["duplicate_panics_observed", "calls_returned", "sloppy_calls_returned"],
         assumptions=COMMON_ASSUME,
     ),
+    "C16": dict(
+        level="exploration",
+        rule=("PARTIAL: the sending/sharing clause and the receiver-mutability slice of the borrow clause; variance and borrow lifetimes are not decided (DESIGN.md section 9). Keys, values, hashers and allocators of four marker "
+              "kinds (Send+Sync, neither, Send-only, Sync-only) report the thread of every access (hash, eq, fmt, clone, &mut use, drop, build_hasher, allocate, deallocate) "
+              "to a thread-confinement monitor. Each of 49 public types of hash_map / hash_set / hash_table (collections, all iterators, drains, extract_ifs, set-operation "
+              "iterators, all entry types incl. raw and rustc entries, OccupiedError) is instantiated with one non-Send/Sync kind in one parameter position (K, V, S, A; plus an "
+              "all-Send+Sync control) and offered to a second thread by value and by shared reference; whether the offer is taken is resolved by the compiler from X: Send / "
+              "X: Sync (inherent method preferred over a blanket trait method), and when it is taken the other thread really uses the object. Violation = an access the kind "
+              "forbids: neither-kind content touched on a foreign thread; Send-only content touched on a foreign thread while the home thread keeps access; Sync-only content "
+              "used exclusively (by value, &mut, drop) on a foreign thread. No expected Send/Sync table is asserted. One slice of the borrow clause is observed the same way: "
+              "10 methods that hand out mutable element access (HashMap iter_mut/values_mut/get_mut/get_key_value_mut/get_many_mut/retain, HashTable iter_mut/iter_hash_mut/"
+              "find_mut/retain) are called through a SHARED reference to the collection while shared references to its elements are alive; a blanket fallback is selected "
+              "unless the method accepts &self, and a violation is mutable access to an address that is also reachable through a live shared reference. "
+              "evaluations = offers made; distinct = distinct (type, position, kind, sent, shared) cells and (method, access handed out) cells observed"),
+        lanes=dict(
+            quick=lanes(("dbg", 2, 4000), ("generic", 1, 4000), ("rel", 1, 4000)),
+            thorough=lanes(("dbg", 4, 30000), ("generic", 2, 30000), ("rel", 2, 30000), ("tsan", 2, 60000), ("miri", 1, 120000)),
+        ),
+        require=["probes", "objects_the_compiler_let_cross_by_value", "objects_the_compiler_let_be_shared", "foreign_thread_accesses_observed_Ok",
+                 "foreign_thread_accesses_observed_So", "foreign_thread_accesses_observed_Yo", "shared_receiver_offers"],
+        assumptions=COMMON_ASSUME + ["only the sending/sharing clause is decided, on marker types placed in one parameter position at a time; the rayon adaptors are not covered (their constructors do not exist for non-Sync contents)"],
+    ),
     "C17": dict(
         level="exploration",
         rule=("the real capacity_to_buckets, bucket_mask_to_capacity, TableLayout::calculate_layout_for, TableLayout::new and ProbeSeq (called through the verif hooks) "
